@@ -21,11 +21,11 @@ Proof. induction vs as [|x r IH]; [destruct p; reflexivity|].
   (destruct x as [|s n|vs|es|lo hi|ps r0]; try reflexivity; destruct s; try reflexivity;
    rewrite IH; cbn [is_atom prim_simple simple_eqb andb]; destruct (forallb _ r); reflexivity). Qed.
 
-Lemma coll_copy_uniform p av v :
-  coll_copy p av v = match v with
-                     | VList vs => if forallb (is_atom p) vs then check_av av (VList vs) else VNull
-                     | _ => VNull end.
-Proof. assert (H : coll_copy p av v = coll_with (loop_copy p) av v) by (destruct p; reflexivity).
+Lemma coll_copy_uniform p ci av v :
+  coll_copy p ci av v = match v with
+                        | VList vs => if forallb (is_atom p) vs then coll_av ci av vs else VNull
+                        | _ => VNull end.
+Proof. assert (H : coll_copy p ci av v = coll_with (loop_copy p) ci av v) by (destruct p; reflexivity).
   rewrite H. unfold coll_with. destruct v; try reflexivity. rewrite loop_copy_uniform. destruct (forallb _ _); reflexivity. Qed.
 
 Lemma type_simple_copy_uniform p : type_simple_copy p = Some (TS (prim_simple p)).
@@ -45,20 +45,20 @@ Lemma items_loop_ext ev ev' vs : (forall es, ev es = ev' es) -> items_loop ev vs
 Proof. intros H. induction vs as [|x r IH]; [reflexivity|]. cbn [items_loop]. destruct x; try reflexivity.
   rewrite H, IH. reflexivity. Qed.
 
-(* ---------- the per-copy model is the generic algorithm (collitem = false) ---------- *)
-Theorem eval_item_generic fixed : forall f D T v, eval_item_gen fixed f D T v = gcheck fixed false f D T v.
+(* ---------- the per-copy model is the generic algorithm ---------- *)
+Theorem eval_item_generic ra ci : forall f D T v, eval_item_gen ra ci f D T v = gcheck ra ci f D T v.
 Proof. induction f as [|f IH]; intros D T v; [reflexivity|]. destruct T as [p av|n av|fs av|p av|n av|fs av]; cbn [eval_item_gen gcheck].
   - apply simple_copy_uniform.
   - destruct (dlookup n D) as [T'|]; [|reflexivity]. rewrite IH. reflexivity.
-  - destruct v; try reflexivity. rewrite (comp_loop_ext _ (gcheck fixed false f D)); [reflexivity|]. intros; apply IH.
+  - destruct v; try reflexivity. rewrite (comp_loop_ext _ (gcheck ra ci f D)); [reflexivity|]. intros; apply IH.
   - rewrite coll_copy_uniform. reflexivity.
   - destruct v as [| |vs| | |]; try reflexivity. destruct (dlookup n D) as [T'|]; [|reflexivity].
-    unfold coll_av. rewrite (map_ext _ (gcheck fixed false f D T')); [reflexivity|]. intros; apply IH.
+    rewrite (map_ext _ (gcheck ra ci f D T')); [reflexivity|]. intros; apply IH.
   - destruct v as [| |vs| | |]; try reflexivity.
-    rewrite (items_loop_ext _ (comp_loop (gcheck fixed false f D) fs)); [reflexivity|].
+    rewrite (items_loop_ext _ (comp_loop (gcheck ra ci f D) fs)); [reflexivity|].
     intros es. apply comp_loop_ext. intros; apply IH. Qed.
 
-(* ---------- outside the known class the code's algorithm is the Spec ---------- *)
+(* ---------- where no collection type carries allowed values the two readings of them agree ---------- *)
 Lemma dlookup_in n D T : dlookup n D = Some T -> In (n, T) D.
 Proof. induction D as [|[k T0] r IH]; cbn [dlookup]; [discriminate|]. destruct (N.eqb n k) eqn:E.
   - intros H. injection H as <-. apply N.eqb_eq in E. subst. left. reflexivity.
@@ -91,8 +91,43 @@ Proof. induction f as [|f IH]; intros D T v HD HT; [reflexivity|].
     + destruct (items_loop _ vs); [rewrite !coll_av_none|]; reflexivity.
     + intros es. apply comp_loop_ext. intros k T x Hin. apply IH; [exact HD | exact (clean_fields _ _ _ HT Hin)]. Qed.
 
-Theorem impl_refines f D T v : clean_defs D = true -> clean T = true -> eval_item f D T v = check f D T v.
-Proof. intros HD HT. unfold eval_item, check. rewrite eval_item_generic. apply gcheck_clean; assumption. Qed.
+(* the code's algorithm is the Spec *)
+Theorem impl_refines f D T v : eval_item f D T v = check f D T v.
+Proof. unfold eval_item, check. apply eval_item_generic. Qed.
+
+(* the pinned commit agreed with the Spec exactly where no referenced type and no collection type carried allowed values *)
+Fixpoint plain_refs (T : idef) : bool :=
+  match T with
+  | IRef _ av => match av with None => true | Some _ => false end
+  | IComp fs _ | ICollComp fs _ => forallb (fun e => plain_refs (snd e)) fs
+  | _ => true
+  end.
+
+Lemma gcheck_plain_refs ci : forall f D T v, forallb (fun e => plain_refs (snd e)) D = true -> plain_refs T = true ->
+  gcheck false ci f D T v = gcheck true ci f D T v.
+Proof. induction f as [|f IH]; intros D T v HD HT; [reflexivity|].
+  assert (HL : forall n T', dlookup n D = Some T' -> plain_refs T' = true).
+  { intros n T' E. rewrite forallb_forall in HD. apply (HD (n, T')). apply dlookup_in. exact E. }
+  assert (HF : forall (fs : list (N * idef)) (k : N) T', forallb (fun e => plain_refs (snd e)) fs = true -> In (k, T') fs -> plain_refs T' = true).
+  { intros fs k T' H Hin. rewrite forallb_forall in H. apply (H (k, T')). exact Hin. }
+  destruct T as [p av|n av|fs av|p av|n av|fs av]; cbn [gcheck]; cbn [plain_refs] in HT.
+  - reflexivity.
+  - destruct av; [discriminate|]. destruct (dlookup n D) as [T'|] eqn:E; [|reflexivity]. rewrite (IH D T' v HD (HL _ _ E)).
+    unfold check_av. cbn [av_ok]. reflexivity.
+  - destruct v; try reflexivity. rewrite (comp_loop_ext _ (gcheck true ci f D)); [reflexivity|].
+    intros k T x Hin. apply IH; [exact HD | exact (HF _ _ _ HT Hin)].
+  - reflexivity.
+  - destruct v as [| |vs| | |]; try reflexivity. destruct (dlookup n D) as [T'|] eqn:E; [|reflexivity].
+    f_equal. apply map_ext. intros x. apply IH; [exact HD | exact (HL _ _ E)].
+  - destruct v as [| |vs| | |]; try reflexivity.
+    rewrite (items_loop_ext _ (comp_loop (gcheck true ci f D) fs)); [reflexivity|].
+    intros es. apply comp_loop_ext. intros k T x Hin. apply IH; [exact HD | exact (HF _ _ _ HT Hin)]. Qed.
+
+Theorem orig_agrees_outside_findings f D T v :
+  clean_defs D = true -> clean T = true -> forallb (fun e => plain_refs (snd e)) D = true -> plain_refs T = true ->
+  eval_item_orig f D T v = check f D T v.
+Proof. intros HD HT HP HPT. unfold eval_item_orig, check. rewrite eval_item_generic.
+  rewrite (gcheck_plain_refs false f D T v HP HPT). apply gcheck_clean; assumption. Qed.
 
 (* ---------- null stays null ---------- *)
 Lemma check_av_null av : check_av av VNull = VNull.
@@ -265,13 +300,12 @@ Proof. intros Hin Hn. unfold check. cbn [gcheck].
   rewrite E. reflexivity. Qed.
 
 (* ---------- input side: the variable evaluator is the Spec ---------- *)
-Theorem var_eval_refines f D name r input :
-  clean_defs D = true -> var_eval f D name r input = input_spec f D name r input.
-Proof. intros HD. unfold var_eval, var_eval_gen, input_spec. destruct input as [| | |es| |]; try reflexivity.
+Theorem var_eval_refines f D name r input : var_eval f D name r input = input_spec f D name r input.
+Proof. unfold var_eval, var_eval_gen, input_spec. destruct input as [| | |es| |]; try reflexivity.
   destruct (vlookup name es) as [x|]; [|reflexivity]. destruct r as [|p|n]; [reflexivity | apply var_copy_uniform |].
-  destruct (dlookup n D) as [T|] eqn:E; [|reflexivity]. apply impl_refines; [exact HD | exact (clean_lookup _ _ _ HD E)]. Qed.
+  destruct (dlookup n D) as [T|] eqn:E; [|reflexivity]. apply impl_refines. Qed.
 
-(* ---------- the two deviations of the code, as witnesses ---------- *)
+(* ---------- the two deviations of the pinned commit, as witnesses ---------- *)
 Definition D_small : defs := [(1%N, ISimple PNumber None); (2%N, IRef 1%N (Some [ULt 10%N]))].
 
 Theorem referenced_orig_refuted :
@@ -281,11 +315,12 @@ Theorem referenced_orig_refuted :
   eval_item_orig 5 D_small (IRef 1%N (Some [ULt 10%N])) (VAtom SNumber 50%N) = VAtom SNumber 50%N.
 Proof. vm_compute. auto. Qed.
 
-Theorem collection_allowed_values_known_witness :
+Theorem collection_orig_refuted :
   let T := ICollSimple PNumber (Some [ULt 10%N]) in
   let v := VList [VAtom SNumber 5%N] in
-  clean T = false /\ conforms 5 [] T v = true /\ check 5 [] T v = v /\ eval_item 5 [] T v = VNull.
-Proof. vm_compute. auto. Qed.
+  clean T = false /\ conforms 5 [] T v = true /\ check 5 [] T v = v /\ eval_item 5 [] T v = v /\ eval_item_orig 5 [] T v = VNull /\
+  eval_item 5 [] T (VList [VAtom SNumber 5%N; VAtom SNumber 50%N]) = VNull.
+Proof. vm_compute. repeat split; reflexivity. Qed.
 
 (* ---------- output side ---------- *)
 Lemma nodupb_ascending l : ascending l = true -> nodupb l = true.
